@@ -50,6 +50,7 @@ structure Case where
   t : Array (Array String) := #[]
   l : Array (Array String) := #[]
   p : Array (Array String) := #[]       -- class resetedge: explicit-register design predicted from the recipe and the twin's power-on value
+  mayReject : Bool := false   -- memory class: registers behind a read port with nested / different enables: a refusal is "rejected, not judged"
   lagsMeasured : String := "-"
   lagsDerived : String := "-"
 
@@ -68,6 +69,8 @@ structure Stats where
   lagChecked : Nat := 0
   lagVisible : Nat := 0      -- autonomous cases in which the official twin differs (finding)
   resetEdgeCases : Nat := 0  -- class resetedge: cases that differ from the twin exactly as the prediction design says (known finding)
+  rejectedNotJudged : Nat := 0
+  mixedEnableAccepted : Nat := 0
   predChecked : Nat := 0     -- class resetedge: designs compared cycle by cycle with the prediction design
   lagStructChecked : Nat := 0 -- counters whose measured register count was compared with the recipe-derived lag
   hints : Nat := 0
@@ -139,7 +142,11 @@ def finishCase (c : Case) (st0 : Stats) : IO Stats := do
   st := { st with resetHist := (bump st.resetHist rkey) }
   st := { st with hints := st.hints + c.hints }
   let fail (kind msg : String) : IO Unit := IO.println s!"{kind} case={c.id} cls={c.cls} {msg}"
+  if c.mayReject && c.err.isNone then st := { st with mixedEnableAccepted := st.mixedEnableAccepted + 1 }
   if let some e := c.err then
+    if c.mayReject && (e.splitOn "phase=hinted").length > 1 then
+      -- the library refuses to retime registers with nested / different enables into one read port: nothing to compare
+      return { st with rejectedNotJudged := st.rejectedNotJudged + 1 }
     fail "DIFF" s!"what=exception msg={e}"
     -- also a concrete failing input: the library rejects a design of a documented shape, so the hinted design has no behaviour to compare
     fail "PROPFAIL" s!"what=design-rejected msg={e}"
@@ -291,6 +298,7 @@ partial def loop (h : IO.FS.Stream) (c : Case) (st : Stats) : IO Stats := do
     loop h { c with unreset := c.unreset || unres, hints := c.hints + (if hint then 1 else 0) } st
   | "out" :: _ :: rest =>
     loop h { c with outs := c.outs.push { step := (kvOf rest "step").toNat!, dep := (kvOf rest "dep").toNat!, ffd := (kvOf rest "ffd").toNat!, ureg := (kvOf rest "ureg").toNat! } } st
+  | "mem" :: rest => loop h { c with mayReject := c.mayReject || kvOf rest "mayreject" == "1" } st
   | "memreg" :: rest =>
     let key := (if kvOf rest "rst" == "-" then "noreset" else "reset") ++ "_" ++ (if kvOf rest "en" == "-1" then "noenable" else "enable")
     loop h { c with memRegs := key :: c.memRegs } st
@@ -317,4 +325,4 @@ partial def loop (h : IO.FS.Stream) (c : Case) (st : Stats) : IO Stats := do
 
 def main : IO Unit := do
   let st ← loop (← IO.getStdin) {} {}
-  IO.println s!"SUMMARY \{\"cases\":{st.cases},\"ops\":{st.ops},\"diffs\":{st.diffs},\"propfails\":{st.propfails},\"rejected_designs\":{st.errors},\"latency_checks\":{st.latChecks},\"latency_skipped\":{st.latSkipped},\"latency_any\":{st.latAny},\"cycles\":{st.cycles},\"stall_cycles\":{st.stallCycles},\"cases_with_holding_circuit\":{st.latchCases},\"hints\":{st.hints},\"twin_undefined_hinted_defined\":{st.undefRefined},\"autonomous_checked_against_lag_twin\":{st.lagChecked},\"autonomous_lag_visible\":{st.lagVisible},\"reset_edge_sampling_cases\":{st.resetEdgeCases},\"reset_edge_designs_checked_against_prediction\":{st.predChecked},\"counter_lags_checked_against_derivation\":{st.lagStructChecked},\"cases_enable_low_after_reset\":{st.enLowAfterReset},\"hist\":\{\"backward_retimed_registers\":{jsonOfMap st.memRegHist},\"grouped_enable_logic_in_retimed_area\":{jsonOfMap st.enRegHist},\"class\":{jsonOfMap st.cls},\"stages\":{jsonOfMap st.nHist},\"reset\":{jsonOfMap st.resetHist}}}"
+  IO.println s!"SUMMARY \{\"cases\":{st.cases},\"ops\":{st.ops},\"diffs\":{st.diffs},\"propfails\":{st.propfails},\"rejected_designs\":{st.errors},\"memory_mixed_enables_rejected_not_judged\":{st.rejectedNotJudged},\"memory_mixed_enables_accepted_and_compared\":{st.mixedEnableAccepted},\"latency_checks\":{st.latChecks},\"latency_skipped\":{st.latSkipped},\"latency_any\":{st.latAny},\"cycles\":{st.cycles},\"stall_cycles\":{st.stallCycles},\"cases_with_holding_circuit\":{st.latchCases},\"hints\":{st.hints},\"twin_undefined_hinted_defined\":{st.undefRefined},\"autonomous_checked_against_lag_twin\":{st.lagChecked},\"autonomous_lag_visible\":{st.lagVisible},\"reset_edge_sampling_cases\":{st.resetEdgeCases},\"reset_edge_designs_checked_against_prediction\":{st.predChecked},\"counter_lags_checked_against_derivation\":{st.lagStructChecked},\"cases_enable_low_after_reset\":{st.enLowAfterReset},\"hist\":\{\"backward_retimed_registers\":{jsonOfMap st.memRegHist},\"grouped_enable_logic_in_retimed_area\":{jsonOfMap st.enRegHist},\"class\":{jsonOfMap st.cls},\"stages\":{jsonOfMap st.nHist},\"reset\":{jsonOfMap st.resetHist}}}"
